@@ -58,6 +58,17 @@ def new_rundir(tag="run"):
 def build_inputs(spec, opts, indir):
     o = full_opts(opts)
     truth, paths = workload.build(spec, indir, gtf_gz=(o["gtf_repr"] == "gz"))
+    if o["gtf_repr"] == "db" and o["annotated"]:
+        # a pre-built database supplied by the user: converted here with the real gffutils, IsoQuant's own arguments
+        import gffutils
+        import warnings
+        dbp = os.path.join(indir, "genes_prebuilt.db")
+        with warnings.catch_warnings():
+            warnings.simplefilter("ignore")
+            gffutils.create_db(paths["gtf"], dbp, force=True, keep_order=True, merge_strategy='error',
+                               sort_attribute_values=True, disable_infer_transcripts=bool(o["complete_genedb"]),
+                               disable_infer_genes=bool(o["complete_genedb"]))
+        paths["db"] = dbp
     return truth, paths
 
 
@@ -190,6 +201,9 @@ def summarize(r, rundir, truth, want=(), oracles=()):
             meta[k] = {"body": hashlib.sha256(body).hexdigest()[:16],
                        "stats": {l.split(b"\t")[0].decode(): l.split(b"\t")[-1].decode() for l in lines if l.startswith(b"__")}}
     res["table_meta"] = meta
+    res["sorted_digests"] = {k: hashlib.sha256(b"\n".join(sorted(v.split(b"\n")))).hexdigest()[:20]
+                             for k, v in files.items() if k.endswith(("read_assignments.tsv", "corrected_reads.bed",
+                                                                       "gene_counts.tsv", "transcript_counts.tsv"))}
     if "labels" in want:
         res["labels"] = simrun.event_labels(r["trace"])
     if "trace" in want:
